@@ -356,3 +356,94 @@ func checkShadowOnlyPending(p *core.Prog, r *core.Report) {
 		r.Check(len(okEdges) > 0 && !reach, "C05.R1", "markShadowedUnits/only-pending", "a unit is relabelled Shadowed only when it was found Pending (or already Shadowed): a unit whose partial is present, being merged, or whose own job is running keeps its state", "setState(unit, Shadowed) is reachable for a unit in another state (only Completed and NoOp are excluded)", p.Pos(c.Pos()))
 	}
 }
+
+// checkAllStoresCompleted (C05.R5): the termination test looks at every segment of every store stage, from the first
+// to the last index of the store segmenter, and answers true only if each of them is Completed or NoOp.  (CmdTryMerge
+// stops merging as soon as it answers true: a test that looks at the last segment only ends the merging while earlier
+// partials are still waiting.)
+func checkAllStoresCompleted(p *core.Prog, r *core.Report) {
+	fn := p.Func(pkgStage, "Stages.AllStoresCompleted")
+	r.Touch(core.FuncName(fn))
+	stT := p.Named(pkgStage, "UnitState")
+	nameOf := map[string]string{}
+	for _, c := range core.EnumConsts(stT) {
+		nameOf[c.Val().ExactString()] = c.Name()
+	}
+	getState := p.FuncObj(pkgStage, "Stages.getState")
+	first, last := p.FuncObj(pkgBlock, "Segmenter.FirstIndex"), p.FuncObj(pkgBlock, "Segmenter.LastIndex")
+	okRange, okStates, okStage := false, false, false
+	for _, c := range core.FindInstrs(fn, core.IsCallTo(getState)) {
+		u, ok := c.(ssa.CallInstruction).Common().Args[1].(*ssa.UnOp)
+		if !ok {
+			continue
+		}
+		al, ok := u.X.(*ssa.Alloc)
+		if !ok {
+			continue
+		}
+		lf := core.LiteralFields(al)
+		if len(lf["Segment"]) != 1 || len(lf["Stage"]) != 1 {
+			continue
+		}
+		seg, isPhi := core.SkipConv(lf["Segment"][0]).(*ssa.Phi)
+		if !isPhi {
+			continue
+		}
+		// segment loop: from FirstIndex() while <= LastIndex()
+		for _, l := range core.Loops(fn) {
+			if l.Header != seg.Block() {
+				continue
+			}
+			startOK, boundOK := false, false
+			for i, pred := range seg.Block().Preds {
+				if !l.Body[pred] {
+					if cc, ok := core.SkipConv(seg.Edges[i]).(*ssa.Call); ok && core.CommonCallee(cc.Common()) == first {
+						startOK = true
+					}
+				}
+			}
+			for _, e := range l.BoundExits {
+				if ifi, ok := e.From.Instrs[len(e.From.Instrs)-1].(*ssa.If); ok {
+					onT, onF, ok := core.CondRelation(ifi.Cond, func(v ssa.Value) bool { return v == ssa.Value(seg) }, func(v ssa.Value) bool {
+						cc, ok := core.SkipConv(v).(*ssa.Call)
+						return ok && core.CommonCallee(cc.Common()) == last
+					})
+					stay := onT
+					if e.Idx == 0 {
+						stay = onF
+					}
+					if ok && stay == core.OrdLT|core.OrdEQ {
+						boundOK = true
+					}
+				}
+			}
+			okRange = startOK && boundOK && len(l.EarlyExits) == 1 // the single early exit is `return false`
+		}
+		// the stage is the index of the loop over s.stages
+		if ph, ok := core.SkipConv(lf["Stage"][0]).(*ssa.Phi); ok {
+			for _, l := range core.Loops(fn) {
+				if l.Header == ph.Block() {
+					okStage = true
+				}
+			}
+		} else if _, ok := core.SkipConv(lf["Stage"][0]).(*ssa.BinOp); ok {
+			okStage = true // rangeindex+1 form
+		}
+		// states accepted
+		var consts []string
+		neq := 0
+		for _, ref := range *c.(ssa.Value).Referrers() {
+			if bo, ok := ref.(*ssa.BinOp); ok {
+				if k, ok := bo.Y.(*ssa.Const); ok && k.Value != nil {
+					consts = append(consts, nameOf[k.Value.ExactString()])
+					if bo.Op == token.NEQ {
+						neq++
+					}
+				}
+			}
+		}
+		sort.Strings(consts)
+		okStates = strings.Join(consts, ",") == "UnitCompleted,UnitNoOp" && neq == 2
+	}
+	r.Check(okRange && okStage && okStates, "C05.R5", "AllStoresCompleted/every-segment", "all stores are complete only if every unit from the first to the last store segment, of every store stage, is Completed or NoOp", fmt.Sprintf("segments FirstIndex()..LastIndex(): %v; per stage: %v; states {Completed, NoOp}: %v", okRange, okStage, okStates), p.Pos(fn.Pos()))
+}
